@@ -49,11 +49,14 @@ type c12sConn struct {
 	closed   chan struct{}
 	once     sync.Once
 	yieldNs  int64
-	// pending: datagrams the application has sent to this destination whose record has not
-	// been completely written yet (maintained by the harness + this double)
+	// pending: datagrams the application has sent to this destination whose SendPacket has
+	// not returned yet (maintained by the harness + the pass-through wrapper below)
 	appSent   atomic.Int64
-	bodies    atomic.Int64
-	contended atomic.Int64 // records started while >= 1 other datagram for this tunnel was pending
+	sendsDone atomic.Int64
+	contended atomic.Int64 // SendPacket calls started while >= 1 other datagram for this tunnel was pending
+	sendCalls atomic.Int64
+	sendOver  atomic.Int64 // SendPacket calls that overlapped another one on the same tunnel
+	sendIn    atomic.Int64
 }
 
 func (c *c12sConn) Write(p []byte) (int, error) {
@@ -71,17 +74,11 @@ func (c *c12sConn) Write(p []byte) (int, error) {
 	c.buf = append(c.buf, p...) // the bytes are on the wire now, in arrival order
 	c.sizes = append(c.sizes, len(p))
 	c.mu.Unlock()
-	if len(p) == 2 {
-		if c.appSent.Load()-c.bodies.Load() >= 2 {
-			c.contended.Add(1)
-		}
-		// slow tunnel: between the length prefix and the body, let anybody else run
-		t0 := time.Now()
-		for c.entered.Load() == mark && time.Since(t0) < time.Duration(c.yieldNs) {
-			runtime.Gosched()
-		}
-	} else {
-		c.bodies.Add(1)
+	// slow tunnel: after every Write let anybody else run (a concurrent sender that is
+	// allowed into the tunnel gets in between two Writes of one record)
+	t0 := time.Now()
+	for c.entered.Load() == mark && time.Since(t0) < time.Duration(c.yieldNs) {
+		runtime.Gosched()
 	}
 	return len(p), nil
 }
@@ -104,6 +101,29 @@ func (c *c12sConn) RemoteAddr() net.Addr               { return &net.TCPAddr{IP:
 func (c *c12sConn) SetDeadline(t time.Time) error      { return nil }
 func (c *c12sConn) SetReadDeadline(t time.Time) error  { return nil }
 func (c *c12sConn) SetWriteDeadline(t time.Time) error { return nil }
+
+// c12sWrap passes everything through to the production udpTunnelConn; it only counts
+// (independent of how many Writes one SendPacket performs).
+type c12sWrap struct {
+	inner *udpTunnelConn
+	fc    *c12sConn
+}
+
+func (w *c12sWrap) SendPacket(data []byte) error {
+	w.fc.sendCalls.Add(1)
+	if w.fc.appSent.Load()-w.fc.sendsDone.Load() >= 2 {
+		w.fc.contended.Add(1)
+	}
+	if w.fc.sendIn.Add(1) > 1 {
+		w.fc.sendOver.Add(1)
+	}
+	err := w.inner.SendPacket(data)
+	w.fc.sendIn.Add(-1)
+	w.fc.sendsDone.Add(1)
+	return err
+}
+func (w *c12sWrap) ReceivePacket() ([]byte, error) { return w.inner.ReceivePacket() }
+func (w *c12sWrap) Close() error                   { return w.inner.Close() }
 
 type c12sCreator struct {
 	mu      sync.Mutex
@@ -131,16 +151,49 @@ func (c *c12sCreator) CreateUDPTunnel(mappingID string, targetClientID int64, ho
 	c.mu.Unlock()
 	// production wiring: udpTunnelConn{serverConn, tunnelStream = stream processor over the conn}
 	sp := stream.NewStreamProcessor(fc, fc, c.ctx)
-	return &udpTunnelConn{tunnelID: "udp-c12s", serverConn: fc, tunnelStream: sp}, nil
+	return &c12sWrap{inner: &udpTunnelConn{tunnelID: "udp-c12s", serverConn: fc, tunnelStream: sp}, fc: fc}, nil
 }
 
 type c12sCase struct {
 	Idx     int   `json:"idx"`
 	Seed    int64 `json:"seed"`
-	Dests   int   `json:"destinations"`
+	Dests   int    `json:"destinations"`
+	Family  string `json:"destination_family"` // plain | collide (address bytes identical across ATYPs)
 	Bursts  []int `json:"burst_sizes"`
 	MaxLen  int   `json:"max_payload"`
 	YieldUs int   `json:"writer_yield_us"`
+}
+
+// c12sSweep: payload sizes at the boundaries of buffers one meets on this path.
+var c12sSweep = func() []int {
+	var v []int
+	for n := 1390; n <= 1610; n++ {
+		v = append(v, n)
+	}
+	for k := 3; k <= 15; k++ {
+		for d := -2; d <= 2; d++ {
+			v = append(v, 1<<k+d)
+		}
+	}
+	return append(v, 65483, 65484, 65485, 65495, 65496, 65497, 65507)
+}()
+
+// c12sHeader builds the SOCKS5 UDP request header and the "host:port" the relay derives.
+func c12sHeader(host string, port int) ([]byte, string) {
+	h := []byte{0, 0, 0}
+	key := host
+	if ip := net.ParseIP(host); ip != nil {
+		if ip4 := ip.To4(); ip4 != nil {
+			h = append(append(h, 0x01), ip4...)
+			key = net.IP(ip4).String()
+		} else {
+			h = append(append(h, 0x04), ip.To16()...)
+			key = net.IP(ip.To16()).String()
+		}
+	} else {
+		h = append(append(h, 0x03, byte(len(host))), host...)
+	}
+	return append(h, byte(port>>8), byte(port)), fmt.Sprintf("%s:%d", key, port)
 }
 
 func c12sPayload(cs, idx, n int) []byte {
@@ -179,61 +232,103 @@ func c12sRun(run *vk.Run, cs c12sCase) {
 		hdr  []byte
 		sent map[string]int // payload -> datagram index
 		n    int
-		want int // encoded bytes expected
 	}
-	dests := make([]*dest, cs.Dests)
-	for i := range dests {
-		port := 9000 + i
-		dests[i] = &dest{key: fmt.Sprintf("127.0.0.%d:%d", 10+i, port),
-			hdr: []byte{0, 0, 0, 1, 127, 0, 0, byte(10 + i), byte(port >> 8), byte(port)}, sent: map[string]int{}}
+	var dests []*dest
+	add := func(host string, port int) {
+		hdr, key := c12sHeader(host, port)
+		dests = append(dests, &dest{key: key, hdr: hdr, sent: map[string]int{}})
 	}
-	total := func() (got, want int) {
+	switch cs.Family {
+	case "collide":
+		// destinations of different address types whose DST.ADDR+DST.PORT bytes are identical
+		add("3.97.98.99", 80) // 03 61 62 63 | 00 50
+		add("abc", 80)        // 03 'a' 'b' 'c' | 00 50
+		v6 := net.IP(append([]byte{0x0f}, []byte("fifteen-chars.x")...))
+		add(v6.String(), 443)
+		add("fifteen-chars.x", 443)
+	default:
+		for i := 0; i < cs.Dests; i++ {
+			switch (cs.Idx + i) % 3 {
+			case 0:
+				add(fmt.Sprintf("127.0.0.%d", 10+i), 9000+i)
+			case 1:
+				add(fmt.Sprintf("host-%d.example", i), 9000+i)
+			default:
+				add(fmt.Sprintf("fd00::%x", 10+i), 9000+i)
+			}
+		}
+	}
+	allSent := func() bool {
 		for _, d := range dests {
-			b, _ := cr.conn(d.key).snapshot()
-			got += len(b)
-			want += d.want
+			fc := cr.conn(d.key)
+			if fc.sendsDone.Load() < fc.appSent.Load() {
+				return false
+			}
 		}
-		return
+		return true
 	}
-	idx := 0
-	for _, bn := range cs.Bursts {
-		for j := 0; j < bn; j++ {
-			d := dests[0]
-			if cs.Dests > 1 {
-				d = dests[r.Intn(cs.Dests)]
-			}
-			n := 8 + r.Intn(cs.MaxLen-7)
-			p := c12sPayload(cs.Idx, idx, n)
-			d.sent[string(p)] = idx
-			d.n++
-			d.want += 2 + len(p)
-			cr.conn(d.key).appSent.Add(1)
-			if _, err := app.Write(append(append([]byte(nil), d.hdr...), p...)); err != nil {
-				run.Count("app_write_failed", 1)
-			}
-			idx++
-		}
-		// next burst once this one is through (pacing only)
+	pace := func(d time.Duration) {
 		t0 := time.Now()
-		for time.Since(t0) < 2*time.Second {
-			if g, w := total(); g >= w {
-				break
-			}
+		for time.Since(t0) < d && !allSent() {
 			time.Sleep(200 * time.Microsecond)
 		}
 	}
-	// quiescence: no Write in progress and the byte counts stopped moving
+	idx := 0
+	send := func(d *dest, n int) {
+		if max := 65507 - len(d.hdr); n > max {
+			n = max
+		}
+		p := c12sPayload(cs.Idx, idx, n)
+		d.sent[string(p)] = idx
+		d.n++
+		cr.conn(d.key).appSent.Add(1)
+		if _, err := app.Write(append(append([]byte(nil), d.hdr...), p...)); err != nil {
+			run.Count("app_write_failed", 1)
+		}
+		idx++
+	}
+	// size sweep: 16 sizes per case taken in turn from the boundary list, so one quick run
+	// covers every size (large ones are sent one at a time to stay inside the socket buffer)
+	for j := 0; j < 16; j++ {
+		n := c12sSweep[(cs.Idx*16+j)%len(c12sSweep)]
+		send(dests[j%len(dests)], n)
+		if n > 8000 {
+			pace(500 * time.Millisecond)
+		}
+	}
+	pace(time.Second)
+	for _, bn := range cs.Bursts {
+		for j := 0; j < bn; j++ {
+			d := dests[0]
+			if len(dests) > 1 {
+				d = dests[r.Intn(len(dests))]
+			}
+			n := 8 + r.Intn(cs.MaxLen-7)
+			if r.Intn(4) == 0 {
+				n = c12sSweep[r.Intn(len(c12sSweep))]
+				if n > 2100 {
+					n = 1390 + r.Intn(220)
+				}
+			}
+			send(d, n)
+		}
+		pace(time.Second) // next burst once this one is through (pacing only)
+	}
+	// quiescence: every SendPacket returned, or (datagrams dropped by the kernel) nothing
+	// in progress and the byte counts stopped moving
 	stable, last := 0, -1
 	t0 := time.Now()
 	for stable < 3 && time.Since(t0) < 3*time.Second {
-		g, w := total()
-		busy := false
+		g, busy := 0, false
 		for _, d := range dests {
-			if cr.conn(d.key).inflight.Load() != 0 {
+			fc := cr.conn(d.key)
+			b, _ := fc.snapshot()
+			g += len(b)
+			if fc.inflight.Load() != 0 || fc.sendIn.Load() != 0 {
 				busy = true
 			}
 		}
-		if g >= w && !busy {
+		if allSent() && !busy {
 			break
 		}
 		if g == last && !busy {
@@ -249,13 +344,14 @@ func c12sRun(run *vk.Run, cs c12sCase) {
 		fc := cr.conn(d.key)
 		buf, sizes := fc.snapshot()
 		run.Count("writer_overlapping_writes_seen", fc.overlap.Load())
-		run.Count("records_started_with_other_datagrams_pending", fc.contended.Load())
+		run.Count("sends_started_with_other_datagrams_pending", fc.contended.Load())
+		run.Count("overlapping_sendpacket_calls_seen", fc.sendOver.Load())
 		detail := func(extra map[string]any) map[string]any {
 			hs := sizes
 			if len(hs) > 40 {
 				hs = hs[:40]
 			}
-			m := map[string]any{"case": cs, "destination": d.key, "datagrams_sent": d.n, "tunnel_bytes": len(buf), "expected_bytes": d.want,
+			m := map[string]any{"case": cs, "destination": d.key, "datagrams_sent": d.n, "tunnel_bytes": len(buf),
 				"write_sizes_head": hs, "overlapping_writes": fc.overlap.Load()}
 			for k, v := range extra {
 				m[k] = v
@@ -275,6 +371,11 @@ func c12sRun(run *vk.Run, cs c12sCase) {
 			switch {
 			case !ok:
 				bad, badAt = "record-is-no-sent-datagram", off
+				for _, o := range dests {
+					if _, other := o.sent[body]; other && o != d {
+						bad = "record-of-another-destination" // intact datagram, wrong tunnel
+					}
+				}
 			case seen[i]:
 				bad, badAt = "duplicate-record", off
 			}
@@ -299,21 +400,26 @@ func c12sRun(run *vk.Run, cs c12sCase) {
 			}
 		}
 	}
-	run.Distinct(fmt.Sprintf("dests=%d|bursts=%v|yield=%d|max=%d", cs.Dests, cs.Bursts, cs.YieldUs, cs.MaxLen))
+	run.Count("sweep_sizes_sent", 16)
+	run.Distinct(fmt.Sprintf("%s|dests=%d|bursts=%v|yield=%d|max=%d", cs.Family, cs.Dests, cs.Bursts, cs.YieldUs, cs.MaxLen))
 }
 
 func TestVerifC12Socks5UDPConcurrentSenders(t *testing.T) {
 	vk.Quiet()
 	run := vk.Start(t, "C12", "socks5-udp-concurrent-senders")
 	defer run.Finish()
-	run.Rule("real socks5.UDPRelay on loopback UDP, tunnels = production udpTunnelConn (length and body as two Writes) over a real StreamProcessor over a yielding conn double (after a 2-byte Write it yields 50-400 us or until another Write arrives); 2-4 bursts of 4..32 unique position-coded datagrams (8..1400 B) fired back-to-back at one destination, or spread over 2..4 destinations; distinct = (destinations, burst sizes, yield, max payload); non-trivial = a record was started while other datagrams for the same tunnel were pending")
+	run.Rule("real socks5.UDPRelay on loopback UDP, tunnels = production udpTunnelConn (length and body as two Writes) over a real StreamProcessor over a yielding conn double (after a 2-byte Write it yields 50-400 us or until another Write arrives); 2-4 a 16-datagram size sweep per case (payload sizes 1390..1610, 2^k+-2, 65483..65507 taken in turn) then bursts of 4..32 unique position-coded datagrams (8..1400 B, a quarter from the sweep list) fired back-to-back at one destination, or spread over 2..4 destinations (IPv4 / names / IPv6), or over destinations whose address bytes collide across address types (3.97.98.99:80 vs \"abc\":80, 0f66:6966:... vs a 15-byte name); distinct = (destinations, burst sizes, yield, max payload); non-trivial = a SendPacket started while other datagrams for the same tunnel were pending")
 	r := run.Rand("gen")
 	n := run.Pick(40, 400)
 	cases := make([]c12sCase, n)
 	for i := range cases {
 		cs := c12sCase{Idx: i, Seed: r.Int63(), Dests: 1, MaxLen: []int{64, 300, 1400}[r.Intn(3)], YieldUs: []int{50, 150, 400}[r.Intn(3)]}
+		cs.Family = "plain"
 		if i%3 == 2 {
 			cs.Dests = 2 + r.Intn(3)
+		}
+		if i%4 == 1 {
+			cs.Family, cs.Dests = "collide", 4
 		}
 		for b := 2 + r.Intn(3); b > 0; b-- {
 			cs.Bursts = append(cs.Bursts, 4+r.Intn(29))
@@ -342,5 +448,6 @@ func TestVerifC12Socks5UDPConcurrentSenders(t *testing.T) {
 	wg.Wait()
 	run.Floor("records_checked", int64(n*15))
 	run.Floor("destinations_complete", int64(n/2))
-	run.Floor("records_started_with_other_datagrams_pending", int64(n*5))
+	run.Floor("sends_started_with_other_datagrams_pending", int64(n*5))
+	run.Floor("sweep_sizes_sent", int64(len(c12sSweep)))
 }
